@@ -1,7 +1,8 @@
 import BipVerif.Driver.Codec
+import BipVerif.Driver.Bip32
 open BipVerif.Driver
 
-def allOps : List (String × Op) := codecOps
+def allOps : List (String × Op) := codecOps ++ bip32Ops
 
 def handle (line : String) : String :=
   match (line.trimAscii.toString.splitOn " ").filter (· ≠ "") with
